@@ -102,8 +102,9 @@ def check_subsystem(ctx, side, res, msg, plant, case, where, model):
             want_time = np.array(case["epochs"][:n], dtype=float)
         sysobj = plant.electric if side == "electric" else plant.mechanical
         for rec in msg.detailed_result:
-            comp = plant.by_name.get(rec.component_name)
+            comp = plant.find(side, rec.component_name, rec.switchboard_id if side == "electric" else rec.shaftline_id)
             if comp is None:
+                ctx.fail("predicate", "detail-record-of-unknown-component", f"{side}: record {rec.component_name} on node {rec.switchboard_id or rec.shaftline_id}", where)
                 continue
             carries = (side == "electric" and comp.power_type in (TypePower.POWER_SOURCE, TypePower.ENERGY_STORAGE, TypePower.PTI_PTO)) or \
                       (side == "mechanical" and comp.type in (TypeComponent.MAIN_ENGINE, TypeComponent.MAIN_ENGINE_WITH_GEARBOX))
